@@ -9,7 +9,7 @@ Modelled function by function (Python name → Lean name):
                                                                    the empty box is (+inf,+inf,-inf,-inf))
   LTTextLine.is_empty, LTTextLine.analyze                        → `Line.isEmpty`, `Line.analyze`
   LTTextLine*.find_neighbors                                     → `neighbors`
-  LTLayoutContainer.group_textlines                              → `collect`, `gtlStep`, `gtlFinal`, `groupTextlines`
+  LTLayoutContainer.group_textlines                              → `collect`, `gtlStep`, `gtlDict`, `gtlYield`, `groupTextlines`
   LTLayoutContainer.group_textboxes                              → `dist`, `isany`, `popMin`, `gtbStep`, `gtbLoop`, `groupTextboxes`
   LTTextBox*.analyze, LTTextGroup*.analyze, IndexAssigner        → `Box.analyze`, `Node.analyze`, `Node.assign`
   LTLayoutContainer.analyze / LTFigure.analyze                   → `analyze`, `analyzeFigure`
@@ -219,19 +219,20 @@ def mkBox (lines : List Line) (vertical : Bool) (t : TBox) : Box :=
 /-- `LTComponent.is_empty` of a box (no member: the box is (+inf,+inf,-inf,-inf), empty). -/
 def Box.isEmpty (b : Box) : Bool := b.lines.isEmpty || b.bb.isEmpty
 
-/-- The second loop of `group_textlines`. -/
-def gtlFinal (d : BoxDict) (lines : List Line) : List Nat → List Nat → List Box
+/-- The second loop of `group_textlines` before the `is_empty` test: the distinct boxes in the
+order of their first line (`done` = identities of the boxes already met). -/
+def gtlYield (d : BoxDict) : List Nat → List Nat → List TBox
   | _, [] => []
   | done, i :: rest =>
-    match dictGet d i, lines[i]? with
-    | some t, some l =>
-      if done.contains t.bid then gtlFinal d lines done rest
-      else
-        -- the class of a box is the class of the line whose iteration created it
-        let b := mkBox lines ((lines[t.bid]?.map (·.vertical)).getD l.vertical) t
-        if b.isEmpty then gtlFinal d lines (t.bid :: done) rest
-        else b :: gtlFinal d lines (t.bid :: done) rest
-    | _, _ => gtlFinal d lines done rest
+    match dictGet d i with
+    | none => gtlYield d done rest
+    | some t =>
+      if done.contains t.bid then gtlYield d done rest
+      else t :: gtlYield d (t.bid :: done) rest
+
+/-- The class of a box is the class of the line whose iteration created it. -/
+def boxVertical (lines : List Line) (t : TBox) : Bool :=
+  (lines[t.bid]?.map (·.vertical)).getD false
 
 /-- The dictionary after the first loop. -/
 def gtlDict (nbOf : Nat → List Nat) : BoxDict → List Nat → BoxDict
@@ -246,7 +247,8 @@ def groupTextlines (p : LAParams) (pageBB : BB) (lines : List Line) : List Box :
     | some l => neighbors p.line_margin plane lines l
     | none => []
   let idx := List.range lines.length
-  gtlFinal (gtlDict nbOf [] idx) lines [] idx
+  ((gtlYield (gtlDict nbOf [] idx) [] idx).map fun t => mkBox lines (boxVertical lines t) t).filter
+    (fun b => !b.isEmpty)
 
 /-! ### group_textboxes -/
 
